@@ -53,6 +53,8 @@ class FakeDUL(object):
             self._transmit(self.pending.pop(0))
 
     def _transmit(self, primitive):
+        if getattr(primitive, 'pdu_type', None) == 4:
+            primitive = [primitive]         # (the real provider transmits a P-DATA-TF handed over as it is)
         if hasattr(primitive, 'pdu_type'):
             raw = primitive.encode()
             try:
